@@ -79,9 +79,12 @@ class Edit:
     The anchor must occur exactly once (or `occurrence` selects one of several); otherwise the
     check ends undecided (exit 2)."""
 
-    def __init__(self, file, anchor, mode, text, why="", alt_anchors=()):
+    def __init__(self, file, anchor, mode, text, why="", alt_anchors=(), probe_group=None):
         self.file, self.anchor, self.mode, self.text, self.why = file, anchor, mode, text, why
         self.alt_anchors = tuple(alt_anchors)
+        # edits of one probe group are woven all-or-nothing; if an anchor is lost the group is skipped,
+        # its flag in the harness file is turned off and only the obligations guarded by it are undecided
+        self.probe_group = probe_group
 
 
 class Workspace:
@@ -90,10 +93,17 @@ class Workspace:
         self.dir = tempfile.mkdtemp(prefix=f"verif-{tag}-", dir=SCRATCH_ROOT)
         self.ws = os.path.join(self.dir, "ws")
         self.weave_log = []
+        self.skipped_probe_groups = {}
         rc, out, _, _ = run(
             ["rsync", "-a", "--exclude", "target", "--exclude", ".git", REPO + "/", self.ws + "/"])
         if rc != 0:
             raise Undecided("setup", "rsync of /repo failed", out)
+
+    def anchor_ok(self, e):
+        if e.mode == "append":
+            return True
+        s = self.read(e.file)
+        return any(s.count(a) == 1 for a in (e.anchor,) + e.alt_anchors)
 
     def path(self, rel):
         return os.path.join(self.ws, rel)
